@@ -15,6 +15,7 @@ import (
 	"path/filepath"
 	"runtime"
 	"runtime/debug"
+	"runtime/pprof"
 	"strings"
 	"sync"
 	"sync/atomic"
@@ -73,6 +74,7 @@ func getUniverse(seed int64, na, nk int) *universe {
 func runCase(cs *Case, checkAll bool, st *stats) (f *failure, m *model) {
 	r := newRun(cs.Level[0], getUniverse(cs.IDSeed, cs.NA, cs.NK), cs.Nest, st)
 	m = r.m
+	defer r.release()
 	defer func() {
 		if p := recover(); p != nil {
 			f = &failure{key: fmt.Sprintf("%c/panic/after-%s", r.level, r.lastOp),
@@ -421,6 +423,7 @@ func randomPhase(c *vf.Ctx, level byte, nseq int, total *stats) {
 func runRandom(cs *Case, rng *rand.Rand, p *profile, nops int, st *stats) (f *failure, m *model) {
 	r := newRun(cs.Level[0], getUniverse(cs.IDSeed, cs.NA, cs.NK), cs.Nest, st)
 	m = r.m
+	defer r.release()
 	defer func() {
 		if p := recover(); p != nil {
 			f = &failure{key: fmt.Sprintf("%c/panic/after-%s", r.level, r.lastOp),
@@ -444,6 +447,14 @@ func main() {
 	c := vf.Start("C12", "exploration")
 	storeBase = filepath.Join(c.Scratch(), "stores")
 	runtime.GOMAXPROCS(workers)
+	// tiny live heap + very high allocation rate (trie batches): collect by heap size, not by ratio
+	debug.SetGCPercent(-1)
+	lim := int64(3 << 30)
+	if v := os.Getenv("C12_MEMLIM_MB"); v != "" {
+		fmt.Sscan(v, &lim)
+		lim <<= 20
+	}
+	debug.SetMemoryLimit(lim)
 
 	if c.ReplayPath != "" {
 		var cs Case
@@ -483,6 +494,11 @@ func main() {
 		c.Finish("watchdog", 0)
 	}()
 
+	if pf := os.Getenv("C12_PROF"); pf != "" {
+		f, _ := os.Create(pf)
+		pprof.StartCPUProfile(f)
+		defer pprof.StopCPUProfile()
+	}
 	total := newStats()
 	lenB, lenS := c.Pick(6, 7), c.Pick(5, 6)
 	if v := os.Getenv("C12_LEN_B"); v != "" {
@@ -494,6 +510,9 @@ func main() {
 	exhaustive(c, 'B', lenB, 2, 2, 6, total)
 	exhaustive(c, 'S', lenS, 2, 2, 6, total)
 	nr := c.Pick(600, 40000)
+	if v := os.Getenv("C12_NR"); v != "" {
+		fmt.Sscan(v, &nr)
+	}
 	randomPhase(c, 'B', nr, total)
 	randomPhase(c, 'S', nr, total)
 
@@ -513,6 +532,7 @@ func main() {
 	c.Count("seen.distinct_state_roots", len(total.roots))
 	c.Count("seen.max_nesting", total.maxNest)
 
+	pprof.StopCPUProfile()
 	c.Finish("every read (GetState/GetAccountState/GetData/GetInitialData, live handles and freshly opened ones) equals a deep-copy snapshot-stack model after the op; "+
 		"state root after Update equals a fresh StateDB on a fresh store fed only the surviving writes; after Commit a StateDB reopened at the root equals the model "+
 		"and no uniquely tagged value of a reverted write is anywhere in the raw store",
